@@ -101,6 +101,18 @@ Theorem C13_update_H_same_Tref : forall splint quadS isclose,
 Proof. intros splint quadS isclose Hs. exact (update_H_same_Tref splint quadS isclose Hs). Qed.
 Print Assumptions C13_update_H_same_Tref.
 
+(* ... and the merged reference entropy in the same way *)
+Theorem C13_update_S_same_Tref : forall splint quadS isclose,
+  (forall a, quadS a a = 0) ->
+  forall self other new,
+  corr_update (K:=Rops) splint quadS lnrR isclose self other false = (new, None) ->
+  i_Tref other = i_Tref self ->
+  (forall pts rg H S T c, construct (K:=Rops) pts rg H S T = Ok c -> 0 < r_lo c) ->
+  i_S new = match i_S other with Some s => Some s | None => i_S self end
+  /\ (forall s s0, i_S other = Some s -> i_S self = Some s0 -> isclose s s0 = true).
+Proof. intros splint quadS isclose Hs. exact (update_S_same_Tref splint quadS isclose Hs). Qed.
+Print Assumptions C13_update_S_same_Tref.
+
 (* one file naming a group twice (two spellings canonicalise to one name, C19)
    is rejected; distinct names are all accepted *)
 Theorem C13_duplicate_group_rejected : forall gs acc g c1 c2 pre mid post,
